@@ -920,12 +920,19 @@ pub fn unread_close(r: &mut Runner) {
 /// goes on. Whatever the server does with that connection (it closes it), the rest of the body — which here is the image
 /// of valid requests — is never parsed as requests.
 pub fn stalled_oversized(r: &mut Runner) {
+    stalled_oversized_with(r, 1, 1500);
+    // the same stall under an idle timeout it does not reach (a timer with a finer grain than the timeout must not disturb
+    // the discard either): here the connection lives on, the discard is completed and the follower is answered
+    stalled_oversized_with(r, 4, 1300);
+}
+
+fn stalled_oversized_with(r: &mut Runner, timeout_secs: u32, stall_ms: u64) {
     use std::io::{Read, Write};
     let clock = std::sync::Arc::new(crate::sut::Clock(std::sync::atomic::AtomicU64::new(0)));
     let mem = std::sync::Arc::new(memcrs::memory_store::store::MemoryStore::new(clock));
     let store: std::sync::Arc<dyn memcrs::cache::cache::Cache + Send + Sync> = mem.clone();
-    let srv = crate::net::start_server(store, 1024, 8, 1);
-    r.exec("note stalled-oversized: header of a 3000-byte set + 100 body bytes, 1.5 s of silence (idle timeout 1 s), then the rest of the body, which is the image of `set injected` + `noop`");
+    let srv = crate::net::start_server(store, 1024, 8, timeout_secs);
+    r.exec(&format!("note stalled-oversized: header of a 3000-byte set + 100 body bytes, {} ms of silence (idle timeout {} s), then the rest of the body, which is the image of `set injected` + `noop`", stall_ms, timeout_secs));
     let start = r.ops.len() - 1;
     let mut f = wire::set_like(op::SET, b"big", b"", 0, 0, 0, 0x51);
     f.body_len = Some(3000);
@@ -940,7 +947,7 @@ pub fn stalled_oversized(r: &mut Runner) {
         c.set_nodelay(true).ok();
         let _ = c.write_all(&head);
         let _ = c.write_all(&vec![b'x'; 100 - 11]); // the header's key and extras are part of the 3000
-        std::thread::sleep(std::time::Duration::from_millis(1500));
+        std::thread::sleep(std::time::Duration::from_millis(stall_ms));
         let mut rest = inner.clone();
         rest.resize(3000 - 100, b'y');
         let _ = c.write_all(&rest);
@@ -957,10 +964,17 @@ pub fn stalled_oversized(r: &mut Runner) {
     let recs = crate::sut::Sut::records_of(&mem);
     let injected = recs.iter().any(|(k, _)| k.as_slice() == b"injected");
     let answered_inner = wire::split_resps(&got).ok().map_or(false, |fr| fr.iter().any(|b| wire::parse_resp(b).map_or(false, |x| x.opaque == 0x66 || x.opaque == 0x67)));
+    let follower = wire::split_resps(&got).ok().map_or(false, |fr| fr.iter().any(|b| wire::parse_resp(b).map_or(false, |x| x.opaque == 0x68 && x.status == 0)));
+    if stall_ms < timeout_secs as u64 * 1000 - 1000 && !follower && !(injected || answered_inner) {
+        let prog = r.prog_start.len().saturating_sub(1);
+        r.violations.push((prog, vec!["C13", "C09"], start, format!(
+            "the sender of an oversized request paused for {} ms inside its body (idle timeout {} s): the noop behind the body was not answered (responses received: {})",
+            stall_ms, timeout_secs, hex(&got[..got.len().min(96)]))));
+    }
     if injected || answered_inner {
         let prog = r.prog_start.len().saturating_sub(1);
         r.violations.push((prog, vec!["C09", "C13", "C18", "C12"], start, format!(
-            "bytes of an oversized request's body were executed as requests after its sender had stalled past the idle timeout: {} (responses received: {})",
+            "bytes of an oversized request's body were executed as requests after its sender had stalled inside that body: {} (responses received: {})",
             if injected { "the key 'injected' is stored" } else { "a request inside the body was answered" }, hex(&got[..got.len().min(96)]))));
     }
 }
